@@ -189,7 +189,8 @@ def gen_case(rng, tier):
             if not any(z['name'] == 'GLOBAL' for z in pz):
                 pz.insert(0, {'name': 'GLOBAL', 'start': 0x10, 'end': 0x7FFF})
                 isa['general']['origin'] = 0x10
-            pz.append({'name': 'ZB', 'start': rng.choice([0x7F00, 0x8, 0x8000]), 'end': rng.choice([0x8000, 0x8100])})
+            # listed in front of the GLOBAL entry, between the entries or behind them: the order of the list is no excuse
+            pz.insert(rng.randint(0, len(pz)), {'name': 'ZB', 'start': rng.choice([0x7F00, 0x8, 0x8000]), 'end': rng.choice([0x8000, 0x8100])})
         else:
             if not any(z['name'] == 'GLOBAL' for z in pz):
                 pz.insert(0, {'name': 'GLOBAL', 'start': 0x10, 'end': 0x7FFF})
